@@ -1890,6 +1890,38 @@ func rulePadFromEnds(c *Ctx, rule string) {
 					continue
 				}
 				l, r := coord(bo.X, 0), coord(bo.Y, 0)
+				// a row is padded as soon as it is one column short: the guard on the way to the padding admits
+				// a pad length of 1
+				guardBlocks := []*ssa.BasicBlock{call.Block()}
+				if prm, ok := call.Call.Args[len(call.Call.Args)-1].(*ssa.Parameter); ok {
+					for _, g := range reach {
+						for _, gb := range g.Blocks {
+							for _, gi := range gb.Instrs {
+								if ci, ok := gi.(ssa.CallInstruction); ok && ci.Common().StaticCallee() == prm.Parent() {
+									guardBlocks = append(guardBlocks, gb)
+								}
+							}
+						}
+					}
+				}
+				cntForm := linOf(cnt, nil)
+				tooStrict := int64(0)
+				for _, gb := range guardBlocks {
+					for _, bf := range branchesAt(gb) {
+						f, ok := strictForm(bf.cond, bf.edge, nil)
+						if !ok {
+							continue
+						}
+						// f < 0 with f = K - 1 - cnt means cnt >= K
+						if sum := f.add(cntForm, 1); sum.isConst() && sum.k+1 > 1 {
+							tooStrict = sum.k + 1
+						}
+					}
+				}
+				if tooStrict > 0 {
+					c.bad(rule, key, call.Pos(), fmt.Sprintf("the padding is done only when the row is at least %d columns short: a row exactly one column short of the alignment's edge is left as it is, so the alignment is not flush after Flush and a column at that edge has fewer letters than there are rows", tooStrict))
+					continue
+				}
 				switch {
 				case (l == "Start" && r == "Start") || (l == "End" && r == "End"):
 					c.ok(rule, key, call.Pos(), "pad length = difference of two "+l+"() coordinates")
